@@ -17,10 +17,19 @@ Theorem C16_deterministic : forall acs req r1 r2, selected acs req r1 -> selecte
 Proof. exact selected_functional. Qed.
 
 (** URL and binding are taken from one registered entry, or nothing when none is registered *)
-Theorem C16_member : forall acs req, wf_acs acs = true ->
+Theorem C16_member : forall acs req,
   (exists x, In x acs /\ GetAcsUrlAndBindingForResponse acs req = pair_of x) \/
   (acs = [] /\ GetAcsUrlAndBindingForResponse acs req = (b "", b "")).
-Proof. intros acs req H. apply (selected_member acs req). now apply C16_refines. Qed.
+Proof. intros acs req. rewrite acs_bridge. apply acs_fun_member. Qed.
+
+(** the rule for arbitrary registered metadata (no assumption on the entries): an entry with the requested binding is
+    used when its Location is not empty; when the first such entry has an empty Location, or there is none, the first
+    isDefault entry, else the first entry with the lowest index, else nothing; with well-formed entries this is the
+    documented rule of C16_refines *)
+Theorem C16_rule_any_metadata : forall acs req, selected_g acs req (GetAcsUrlAndBindingForResponse acs req).
+Proof. intros acs req. rewrite acs_bridge. apply acs_fun_selected_g. Qed.
+Theorem C16_rule_any_metadata_wf : forall acs req r, wf_acs acs = true -> selected_g acs req r -> selected acs req r.
+Proof. exact selected_g_wf. Qed.
 
 (** non-vacuity, and the two inputs that failed before the fix: commits: index 0 is a real index; isDefault="1" *)
 Definition mk idx dft bnd loc :=
@@ -30,6 +39,9 @@ Example C16_index_zero : GetAcsUrlAndBindingForResponse [mk "0" "" "A" "l0"; mk 
 Proof. vm_compute. reflexivity. Qed.
 Example C16_default_one : GetAcsUrlAndBindingForResponse [mk "5" "" "A" "l0"; mk "9" "1" "B" "l1"] (b "X") = (b "l1", b "B").
 Proof. vm_compute. reflexivity. Qed.
+Example C16_empty_location_falls_through :
+  GetAcsUrlAndBindingForResponse [mk "0" "" "A" ""; mk "1" "true" "B" "l1"] (b "A") = (b "l1", b "B").
+Proof. vm_compute. reflexivity. Qed.
 Example C16_wf_inhabited : wf_acs [mk "0" "" "A" "l0"; mk "1" "" "B" "l1"] = true.
 Proof. reflexivity. Qed.
 
@@ -37,3 +49,5 @@ Print Assumptions C16_bridge.
 Print Assumptions C16_refines.
 Print Assumptions C16_deterministic.
 Print Assumptions C16_member.
+Print Assumptions C16_rule_any_metadata.
+Print Assumptions C16_rule_any_metadata_wf.
